@@ -40,6 +40,8 @@ SUBS = [
     (S, ("if", "i1", (("return",),), ()), ("await", "i0"), S),
     # nested call
     (("call", 0), S, ("await", "true")),
+    # loop whose body always returns, followed by code that only runs when the loop is not entered
+    (("while", "i1", (S, ("return",))), S, ("await", "i0")),
 ]
 
 
@@ -113,7 +115,7 @@ def has(block, kind):
     return False
 
 
-def programs(size, conds=("i0", "i1", "n0"), awaits=("i0", "i1", "and", "true", "false"), calls=(0, 1, 2, 3), depth=3):
+def programs(size, conds=("i0", "i1", "n0"), awaits=("i0", "i1", "and", "true", "false"), calls=(0, 1, 2, 3, 4), depth=3):
     for b in gen_blocks(size, False, conds, awaits, calls, depth):
         if count_sites(b) == 0:
             continue
